@@ -3,7 +3,7 @@ from registry_common import COMMON_ASSUME
 ENTRY = dict(
         title="Event dispatch: ordered callbacks, consistent stored value, once means once",
         design_ref="DESIGN.md section 6 / C13",
-        prop_modules=["C13", "C13Spec", "C13Filter"],
+        prop_modules=["C13", "C13Spec", "C13Filter", "C13Table"],
         technique="Lean 4 interleaving machine (API calls, 'dispatch task i moves', 'waiter j moves', 'clock advances') with one inductive "
                   "invariant over ALL event lists and ALL callback scripts + trace-inclusion correspondence: a real EventManager with callbacks "
                   "suspended on harness-controlled futures under a virtual-time loop; the Lean driver replays the schedule the harness chose",
@@ -22,6 +22,9 @@ ENTRY = dict(
                    "choosing the schedule); asyncio's ready-queue FIFO order, Event and wait_for are exercised, not modelled (the driver applies FIFO "
                    "order to the machine's nondeterministic moves; the theorems hold for every order).",
         clauses={
+            'public API audit: everything EventManager defines is in one of the two machines': 'table (Gen.eventManagerApi by reflection; event_manager_api_pinned: a new / renamed public method or a changed default breaks it)',
+            "create_event identity: one Event per name for the manager's lifetime, also after timed-out and cancelled waits": 'theorem (C13T.event_identity, step_keeps, create_event_returns_the_same_object over ALL histories of create_event / set_event / store / load / wait / resume / expire / cancel) + correspondence (section `table`: Event object identity and is_set observed through `events` after every op)',
+            'data / get_nowait / attribute access never yield a value that was not an outcome of a dispatch or load': 'theorem (C13T.data_is_an_outcome, only_dispatch_and_load_store, load_is_stores) + correspondence (every public reader compared with data after every op; get() after a bare set_event raises KeyError)',
             "callbacks awaited in subscription order, value threaded, None keeps it": "theorem (dispatch_order_and_threading, plain_entries_awaited, snapshot_is_live_list)",
             "the only entries a dispatch passes without awaiting are once-wrappers that had been unsubscribed": "theorem (skipped_entry_was_removed: under every schedule a skipped snapshot entry is a once-wrapper AND is recorded as removed from its live list — invariant InvK in Proofs/EventsK.lean; live_entry_awaited: in ANY state a dispatch that reaches a plain entry, or a once-wrapper still in the live list, awaits it with the current value; snapshot_entry_awaited_or_removed: a finished dispatch awaited every entry of its snapshot or the entry had been removed) — a machine that never awaits subscribe_once callbacks does not satisfy these",
             "then stores the final value and wakes every waiter": "theorem (finish_stores_and_wakes, dispatch_order_and_threading)",
